@@ -299,7 +299,7 @@ def directStep (w : Rec) : Act → Rec × Res
   | .setHeader k v => ({ w with hdr := hset w.hdr k v }, .ok)
   | .writeHeader c =>
     if w.wrote then (w, .ok)
-    else if !validCode c then (w, .panicked (invalidCodePanic c))
+    else if !(decide (100 ≤ c) && decide (c ≤ 999)) then (w, .panicked (invalidCodePanic c))   -- net/http's own check
     else (w.writeHeader c, .ok)
   | .write b => (w.write b, .ok)
   | .flush => (w.flush, .ok)
